@@ -117,6 +117,22 @@ def raise_site(e):
   return (last.name if last else 'unknown') + ('.' + m.group(1) if m else '')
 
 
+def input_class(existing, requests):
+  """Coarse class of an input, part of the finding key of a raised exception (so that a recorded
+  finding about one neighbourhood does not cover the same assertion failing in another)."""
+  finite = [abs(x) for x in list(existing) + list(requests) if math.isfinite(x)]
+  if any(x >= 2.0 ** 52 for x in finite):
+    return 'spacing>=1'
+  if any(0 < x < 2.2250738585072014e-308 for x in finite):
+    return 'subnormal'
+  if any(x <= 0 for x in existing):
+    return 'nonpositive-existing'
+  if any(x >= 1e300 for x in finite):
+    return 'near-max'
+  lo = min(existing) if existing else 1.0
+  return 'ordinary/2^%d' % math.frexp(lo)[1]
+
+
 def evaluate(E, existing, requests):
   """
   One evaluation: call, count, judge.  Returns the next list of positions (existing rows adjusted,
@@ -127,7 +143,7 @@ def evaluate(E, existing, requests):
     adjustments, new_keys = call(existing, requests)
   except Exception as e:   # pylint: disable=broad-except
     E.count(None, nontrivial=True)
-    fail_min(E, 'C20/raised/%s/%s' % (type(e).__name__, raise_site(e)),
+    fail_min(E, 'C20/raised/%s/%s/%s' % (type(e).__name__, raise_site(e), input_class(existing, requests)),
              "prepare_inserts(existing=%s, requests=%s) raised %s" % (
                  case['existing'], case['requests'], H.exc_text(e)), case)
     return None
@@ -208,6 +224,17 @@ def chain_specs(tier):
           yield ('chain', base, size, spot, count)
 
 
+ALIGN_BASES = [1.0, 17.0, 0.5, 1023.0, 2.0 ** 40]
+
+
+def align_specs(tier):
+  for base in (ALIGN_BASES if tier == 'thorough' else ALIGN_BASES[:3]):
+    # offsets around the start of the binade and in its interior (17.0 + 139 floats is where a
+    # 3-float paste was seen to need the enclosing-range search)
+    for k in list(range(16)) + ([128 + i for i in range(16)] if tier == 'thorough' else [139, 140]):
+      yield ('align', base, k)
+
+
 def tree_specs(tier):
   # The first gap choice is part of the spec so that the tree splits into parallel chunks.
   for base in (1.0, 2.0 ** 52 - 2, 5e-324):
@@ -254,6 +281,19 @@ def worker(job):
       positions = evaluate(E, positions, spot_requests(positions, spot, count))
       if positions is None:
         break
+  elif spec[0] == 'align':
+    # D: the left neighbour at every offset of an aligned block of 16 floats, a gap of 1-3 floats
+    # to the next row (optionally a further row 1 float beyond), and every batch of 2-3 requests
+    # drawn from the floats of the gap and its two ends
+    _, base, k = spec
+    a = up(base, k)
+    for gap in (1, 2, 3):
+      for tail in ((), (1,), (4,)):
+        existing = [a, up(a, gap)] + [up(a, gap + t) for t in tail]
+        menu = [up(a, i) for i in range(0, gap + 1)]
+        for m in (2, 3):
+          for batch in itertools.product(menu, repeat=m):
+            evaluate(E, existing, list(batch))
   elif spec[0] == 'tree':
     _, base, size, variant, first = spec
     run_tree(E, [up(base, i) for i in range(size)], variant, B['tree_depth'], first)
@@ -270,7 +310,9 @@ def run(tier, report):
       'a cluster of 2/3/5 adjacent floats starting at %s, each result applied to form the next '
       'input; C: every sequence of <= %d single inserts into any gap (request = tie with the next '
       'row, or nextfloat of the previous one) from clusters of 2/3 adjacent floats at 1.0, 2^52-2, '
-      '5e-324.  One evaluation = one prepare_inserts call judged by the oracle; non-trivial = it '
+      '5e-324; D: left neighbour at each of 16 consecutive float offsets of an aligned block (bases '
+      '1.0, 17.0, 0.5, ...), a gap of 1-3 floats, every batch of 2-3 requests from the floats of '
+      'the gap and its ends.  One evaluation = one prepare_inserts call judged by the oracle; non-trivial = it '
       'returned at least one adjustment of an existing row (relabeling path) or raised.  Cases are '
       'distinct by construction: A enumerates each (list, batch) once, a case of B/C is an '
       'insertion history (spec + step / gap sequence), each generated once.'
@@ -283,6 +325,7 @@ def run(tier, report):
   jobs = [(tier, ('grid', lists[i::nchunks])) for i in range(nchunks)]
   jobs += [(tier, s) for s in chain_specs(tier)]
   jobs += [(tier, s) for s in tree_specs(tier)]
+  jobs += [(tier, s) for s in align_specs(tier)]
   parts = pmap(worker, jobs)
   best = {}
   for part in parts:               # report the smallest failing case of each key
@@ -312,27 +355,44 @@ def _engine_prop():
   # view edits in W_schema, record adds/removes in W_rec).
   from mc.histprop import HistProp
   from mc import worlds as W
-  from mc.monitors2 import Positions
-  names = ['W_look', 'W_schema', 'W_rec']
-  depth = W.depths_for(names, quick=1, thorough=2, overrides={'quick': {'W_look': 2}, 'thorough': {'W_look': 3}})
-  return HistProp('C20', lambda t: W.make(names), lambda w, t: [Positions()], depth,
-                  origins={'quick': ('L',), 'thorough': ('L',)}, rule='')
+  # W_pos drives PositionColumn.prepare_new_values itself: inserts and moves into a cluster of
+  # adjacent floats (every one needs existing rows relabelled), on column objects that a
+  # RenameTable has replaced; origin I keeps those objects (origin L reloads the document).
+  from mc.monitors2 import Positions, PositionOrder
+  names = ['W_look', 'W_schema', 'W_rec', 'W_pos']
+  depth = W.depths_for(names, quick=1, thorough=2, overrides={'quick': {'W_look': 2, 'W_pos': 2},
+                                                              'thorough': {'W_look': 3, 'W_pos': 3}})
+  return HistProp('C20', lambda t: W.make(names), lambda w, t: [Positions(), PositionOrder()], depth,
+                  origins={'quick': ('L', 'I'), 'thorough': ('L', 'I')}, rule='')
 
 
 def engine_part(tier, report):
   from mc import explore
   P = _engine_prop()
   worlds = P.worlds(tier)
-  total = explore.run(worlds, lambda w: P.monitors(w, tier), P.depth[tier], origins=('L',),
-                      split_levels=1, budget_s=600)
+  total = explore.run([w for w in worlds if w.name != 'W_pos'], lambda w: P.monitors(w, tier),
+                      P.depth[tier], origins=('L',), split_levels=1, budget_s=600)
+  tpos = explore.run([w for w in worlds if w.name == 'W_pos'], lambda w: P.monitors(w, tier),
+                     P.depth[tier], origins=('L', 'I'), split_levels=1, budget_s=600)
+  total.histories += tpos.histories
+  total.states |= tpos.states
+  total.errors += tpos.errors
+  for k, v in tpos.violations.items():
+    total.violations.setdefault(k, v)
+  report.coverage['engine_position_columns_checked'] = (
+      total.extra.get('position_columns_checked', 0) + tpos.extra.get('position_columns_checked', 0))
   total.violations = {k: v for k, v in total.violations.items()
                       if k.startswith('C20/') or '/monitor-exception/' in k}
   report.coverage['engine_histories'] = total.histories
   report.coverage['engine_states'] = len(total.states)
   report.coverage['engine_depth'] = P.depth[tier]
-  report.coverage['engine_rule'] = ('history explorer over W_look/W_schema/W_rec: after every '
-                                    'successful bundle every PositionNumber/ManualSortPos column '
-                                    'of every table holds pairwise distinct values')
+  report.coverage['engine_rule'] = ('history explorer over W_look/W_schema/W_rec/W_pos (origins L and I): '
+                                    'after every successful bundle every PositionNumber/ManualSortPos '
+                                    'column of every table holds pairwise distinct finite values, rows '
+                                    'the bundle did not place keep their order, and every row placed '
+                                    'by a single add/update action sits where its requested position '
+                                    'falls among them (W_pos: inserts/moves into a cluster of adjacent '
+                                    'floats behind a RenameTable)')
   report.merge_violations(total.violations.values())
   if total.errors:
     report.add_violation('C20/harness-error', "explorer unit failed: %s" % total.errors[0][:1200])
